@@ -380,20 +380,16 @@ func (x *Exec) isFresh(st *State, v *Term) *Term {
 	if v.Sort == c.Slice {
 		v = c.Sel(v, 0)
 	}
-	switch v.Op {
-	case "cell":
-		return c.BoolLit(v.Idx > x.fresh0)
-	case "ite":
-		return c.Ite(v.Args[0], x.isFresh(st, v.Args[1]), x.isFresh(st, v.Args[2]))
-	case "faddr", "iaddr":
-		return x.isFresh(st, v.Args[0])
-	}
-	return c.False
+	return c.Not(x.isOldRef(v))
 }
 
 // unchanged: no write to memory that existed before the call.
 func (x *Exec) unchanged(st *State) *Term {
-	return x.c.BoolLit(len(st.writes) == 0)
+	var cs []*Term
+	for _, w := range st.writes {
+		cs = append(cs, x.c.Not(x.isOldRef(w.addr)))
+	}
+	return x.c.And(cs...)
 }
 
 // trusted models for external functions (assumed contracts; listed in the evidence).
